@@ -26,6 +26,16 @@ func indexDirection(idx ssa.Value) string {
 			}
 		}
 	}
+	// mirrored counter: (len(x) - 1) - n with n ascending goes down
+	if b, ok := idx.(*ssa.BinOp); ok && b.Op == token.SUB && indexDirection(b.Y) == "up" {
+		if top, ok := b.X.(*ssa.BinOp); ok && top.Op == token.SUB {
+			if k, ok := constIntOf(top.Y); ok && k == 1 {
+				if call, ok := top.X.(*ssa.Call); ok && an.IsBuiltinCall(call, "len") {
+					return "down"
+				}
+			}
+		}
+	}
 	p, ok := idx.(*ssa.Phi)
 	if !ok {
 		return ""
@@ -496,21 +506,46 @@ func c12cpuset(c *Ctx) {
 				if !ok || ia.X != ssa.Value(paths) {
 					continue
 				}
-				n++
-				dir := indexDirection(ia.Index)
-				var under string
-				for _, g := range an.Guards(ia) {
-					if g.Cond == ssa.Value(flag) {
-						if g.Truth {
-							under = "reversed"
-						} else {
-							under = "forward"
+				// the index, per way it can have been computed: either the loop variable of a loop chosen by the flag, or
+				// a value selected inside one loop body (i = n; if reversed { i = len-1-n })
+				type alt struct {
+					idx    ssa.Value
+					guards []an.Guard
+				}
+				alts := []alt{{ia.Index, an.Guards(ia)}}
+				if phi, isPhi := ia.Index.(*ssa.Phi); isPhi && indexDirection(phi) == "" {
+					alts = nil
+					for k, e := range phi.Edges {
+						pred := phi.Block().Preds[k]
+						gs := append(an.Guards(ia), an.BlockGuards(pred)...)
+						if pi, ok := pred.Instrs[len(pred.Instrs)-1].(*ssa.If); ok && len(pred.Succs) == 2 && pred.Succs[0] != pred.Succs[1] {
+							pc, neg := an.StripNot(pi.Cond)
+							t := pred.Succs[0] == phi.Block()
+							if neg {
+								t = !t
+							}
+							gs = append(gs, an.Guard{Cond: pc, Truth: t, If: pi})
 						}
+						alts = append(alts, alt{e, gs})
 					}
 				}
-				ok2 := (under == "reversed" && dir == "down") || (under == "forward" && dir == "up")
-				r.Check(ok2, "LOOPDIR", sprintf("%s/%s", fkey(fn), under), c.InstrPos(ia), "iteration direction "+dir+" under "+under,
-					"paths are iterated '"+dir+"' under isReversed="+under+": the write order does not match the requested direction")
+				for _, a := range alts {
+					n++
+					dir := indexDirection(a.idx)
+					var under string
+					for _, g := range a.guards {
+						if g.Cond == ssa.Value(flag) {
+							if g.Truth {
+								under = "reversed"
+							} else {
+								under = "forward"
+							}
+						}
+					}
+					ok2 := (under == "reversed" && dir == "down") || (under == "forward" && dir == "up")
+					r.Check(ok2, "LOOPDIR", sprintf("%s/%s", fkey(fn), under), c.InstrPos(ia), "iteration direction "+dir+" under "+under,
+						"paths are iterated '"+dir+"' under isReversed="+under+": the write order does not match the requested direction")
+				}
 			}
 		}
 		r.Floor("LOOPDIR", "path iterations in writeBECgroupsCPUSet", n, 2)
